@@ -43,6 +43,10 @@ type hxTransport struct {
 	Intercept func(req *http.Request, n int) (*http.Response, error)
 	// Tag is applied to every request before it reaches the handler (e.g. to set a local address).
 	Tag func(req *http.Request) *http.Request
+	// WriteFault, if set, is asked before every body write of an exchange; a non-nil error is what the
+	// handler's Write returns (nothing is delivered) although the request and its context live on -
+	// an expired write deadline, a proxy that went away.
+	WriteFault func(x *hxExchange) error
 }
 
 type hxWriter struct {
@@ -53,6 +57,8 @@ type hxWriter struct {
 	once    sync.Once
 	status  int
 	ctxDone <-chan struct{}
+	fault   func(x *hxExchange) error
+	faulted bool // a write has failed: the connection is broken, the client will not see a clean end of the body
 }
 
 func (w *hxWriter) Header() http.Header { return w.hdr }
@@ -70,6 +76,12 @@ func (w *hxWriter) WriteHeader(status int) { w.commit(status) }
 
 func (w *hxWriter) Write(p []byte) (int, error) {
 	w.commit(http.StatusOK)
+	if w.fault != nil {
+		if err := w.fault(w.x); err != nil {
+			w.faulted = true
+			return 0, err
+		}
+	}
 	w.x.mu.Lock()
 	w.x.RespBody.Write(p)
 	w.x.mu.Unlock()
@@ -117,7 +129,7 @@ func (t *hxTransport) RoundTrip(req *http.Request) (*http.Response, error) {
 		sreq = t.Tag(sreq)
 	}
 	pr, pw := io.Pipe()
-	w := &hxWriter{x: x, hdr: http.Header{}, pw: pw, ready: make(chan struct{})}
+	w := &hxWriter{x: x, hdr: http.Header{}, pw: pw, ready: make(chan struct{}), fault: t.WriteFault}
 	go func() {
 		defer close(x.Done)
 		defer func() {
@@ -129,7 +141,13 @@ func (t *hxTransport) RoundTrip(req *http.Request) (*http.Response, error) {
 		}()
 		t.Handler.ServeHTTP(w, sreq)
 		w.commit(http.StatusOK)
-		pw.Close()
+		if w.faulted {
+			// like a real connection whose writes failed: it is torn down, the client's read of the
+			// body ends with an error, not with a clean end of a (chunked) body
+			pw.CloseWithError(io.ErrUnexpectedEOF)
+		} else {
+			pw.Close()
+		}
 	}()
 	select {
 	case <-w.ready:
